@@ -19,6 +19,7 @@ def run(e, R, tier):
         B.r_kill_tree,
         L.r_own_resolve,
         L.r_drop_resolves,
+        L.r_callback_lock,
         L.r_cancel_safe,
         L.r_mgr_exit,
         B.r_exc_types,
